@@ -95,7 +95,8 @@ TraceObserve ==
                   s_exact |-> (T_SExact(e) /\ (T_DKind(e) # "none" => e.s_requires = 1)),
                   s_sharing |-> e.s_sharing = 1, fits |-> T_Fits(e, pod),
                   b_reached |-> e.b_reached = 1, b_ok |-> (e.b_prebind_ok = 1 /\ e.b_validate_ok = 1),
-                  b_exact |-> (e.b_reached = 1 /\ T_BExact(e)), sharing |-> pod.sharing = 1]
+                  b_exact |-> (e.b_reached = 1 /\ T_BExact(e)), sharing |-> pod.sharing = 1,
+                  updsame |-> e.a_update_same = 1]
   /\ pc' = "done" /\ l' = l + 1
   /\ UNCHANGED <<pod, l0>>
 
